@@ -259,3 +259,42 @@ def resumable_wait():
               "body": [G, {"op": "wait", "ty": "Resp", "wid": "w1", "timeout": None, "reqs": {"k": 1}, "wev": True},
                        {"op": "store_set", "key": "uid"}, G, {"op": "stop", "result": "done"}]},
     }}
+
+
+def retry_then_stop(delay=5, fail_until=1, retry_max=3):
+    """a -> A -> b fails once and is retried after `delay` seconds, then stops (result constant)."""
+    return {"timeout": None, "steps": {
+        "a": {"accepts": ["Start"], "nw": 1, "body": [G, {"op": "ret", "ty": "A"}]},
+        "b": {"accepts": ["A"], "nw": 1, "retry": {"max": retry_max, "wait": ["fixed", delay]},
+              "body": [G, {"op": "fail", "until": fail_until}, {"op": "stop", "result": "done"}]},
+    }}
+
+
+def wait_timeout_then_stop(timeout=5):
+    """a waits for a Resp with a timeout; on TimeoutError it stops with a marker result."""
+    return {"timeout": None, "steps": {
+        "a": {"accepts": ["Start"], "nw": 1,
+              "body": [G, {"op": "wait", "ty": "Resp", "wid": "w1", "timeout": timeout, "wev": True, "on_timeout": "stop"},
+                       G, {"op": "stop", "result": "done"}]},
+    }}
+
+
+def two_waits():
+    """a waits for a Resp, then emits A; b waits for a second Resp (k=1), then stops: two idle periods."""
+    return {"timeout": None, "steps": {
+        "a": {"accepts": ["Start"], "nw": 1,
+              "body": [G, {"op": "wait", "ty": "Resp", "wid": "w1", "timeout": None, "wev": True}, G, {"op": "ret", "ty": "A"}]},
+        "b": {"accepts": ["A"], "nw": 1,
+              "body": [G, {"op": "wait", "ty": "Resp", "wid": "w2", "timeout": None, "reqs": {"k": 1}, "wev": True}, G,
+                       {"op": "stop", "result": "done"}]},
+    }}
+
+
+def idle_acceptor():
+    """a waits for a Resp (the run is idle meanwhile); b accepts external Hum events as ordinary inputs and records them."""
+    return {"timeout": None, "steps": {
+        "a": {"accepts": ["Start"], "nw": 1,
+              "body": [G, {"op": "wait", "ty": "Resp", "wid": "w1", "timeout": None, "wev": True}, G,
+                       {"op": "stop", "result": "done"}]},
+        "b": {"accepts": ["Hum"], "nw": 2, "returns": ["None"], "body": [G, {"op": "store_set", "key": "uid"}, {"op": "none"}]},
+    }}
